@@ -839,3 +839,18 @@ Definition json_agrees (q : Q) (tok : string) : bool :=
   | MInt z => rounds_to q z 0
   | _ => false
   end.
+
+(* ---------------------------------------------------------------- a tiny renderer for printed numerals *)
+
+(* every fixed-point figure a writer format ({:w.pf}, {:,.pf}, {:w.0f}) can produce is: sign, digit groups
+   (one group, or several separated by ','), and, for p > 0, a point and p digits *)
+Definition digit_char (d : nat) : ascii := ascii_of_nat (48 + d).
+Fixpoint digits_str (ds : list nat) : string :=
+  match ds with [] => "" | d :: r => String (digit_char d) (digits_str r) end.
+Fixpoint digits_val (acc : Z) (ds : list nat) : Z :=
+  match ds with [] => acc | d :: r => digits_val (10 * acc + Z.of_nat d) r end.
+Fixpoint groups_str (g : list nat) (gs : list (list nat)) : string :=
+  digits_str g ++ match gs with [] => "" | h :: t => "," ++ groups_str h t end.
+Definition render_number (neg : bool) (g : list nat) (gs : list (list nat)) (frac : list nat) : string :=
+  (if neg then "-" else "") ++ groups_str g gs ++ (match frac with [] => "" | _ => "." ++ digits_str frac end).
+Definition all_digits (ds : list nat) : bool := forallb (fun d => Nat.ltb d 10) ds.
